@@ -569,6 +569,16 @@ void Parser::ParserImpl::loadModel(const ModelPtr &model, const std::string &inp
             }
         } else if (mParsing1XVersion && childNode->isCellml1XElement("group")) {
             if (isEncapsulationRelationship(childNode)) {
+                if (encapsulationNodes.empty()) {
+                    // The identifier of the encapsulation group is the identifier of the CellML 2.0 encapsulation.
+                    XmlAttributePtr groupAttribute = childNode->firstAttribute();
+                    while (groupAttribute != nullptr) {
+                        if (isIdAttribute(groupAttribute, true)) {
+                            model->setEncapsulationId(groupAttribute->value());
+                        }
+                        groupAttribute = groupAttribute->next();
+                    }
+                }
                 encapsulationNodes.push_back(childNode);
             }
         } else if (mParsing1XVersion && childNode->isCellml1XElement("connection")) {
